@@ -18,7 +18,11 @@ use crate::rng::TestRng;
 use crate::{scn, Scenario};
 
 pub fn scenarios() -> Vec<Scenario> {
-    vec![scn!(scenario_refresh_dealer), scn!(scenario_refresh_dkg)]
+    vec![
+        scn!(scenario_refresh_dealer, 2),
+        scn!(scenario_refresh_dkg, 2),
+        crate::wrap::scn_refresh(1),
+    ]
 }
 
 /// The participants that stay (in the order handed to the library) and those removed.
